@@ -185,6 +185,13 @@ def run(ctx):
                 ops = inp["ops"]
         want = dict_model(ops)
         tmp = tempfile.mkdtemp(prefix="ddsverif_c08_")
+        if i % 3 == 2:
+            # the store directories are reached through a symbolic link (a home on another volume, /var -> /private/var, ...)
+            os.makedirs(tmp + "/real_parent")
+            os.symlink(tmp + "/real_parent", tmp + "/via_link")
+            tmp_real, tmp = tmp, tmp + "/via_link"
+        else:
+            tmp_real = tmp
         try:
             kinds = ["memory", "local", "local_lru"] + (["dbfs"] if (have_dbfs and not dangling) else [])
             for kind in kinds:
@@ -254,7 +261,7 @@ def run(ctx):
             if i < 2:
                 res.sample({"ops": ops[:10], "dictionary": want[:10]})
         finally:
-            shutil.rmtree(tmp, ignore_errors=True)
+            shutil.rmtree(tmp_real, ignore_errors=True)
     # escaping / unsupported paths: must be refused with a DDS error and create nothing outside
     for segs in (["..", "x"], ["a", "..", "..", "x"], [".", "x"], ["a", "."], []):
         p = "/" + "/".join(segs)
